@@ -443,6 +443,7 @@ def coap_encode_cases(draw):
 
 from props.ble_layers import C17_BLE_LAYERS  # noqa: E402
 from props.coap_layers import C13_LAYERS as _COAP_TRANSPORT  # noqa: E402
+from props.coap_layers import C17_COAP_INITIAL_LAYERS  # noqa: E402
 
 SPEC = Property(
     P, "exploration",
@@ -464,6 +465,7 @@ SPEC = Property(
         Layer("coap-batch-gen", run_coap, strategy=coap_cases, n={"quick": 12000, "thorough": 120000}),
         Layer("coap-encode-gen", run_coap_encode, strategy=coap_encode_cases, n={"quick": 1000, "thorough": 20000}),
         *C17_BLE_LAYERS,
+        *C17_COAP_INITIAL_LAYERS,
         *[Layer("coap-transport-" + l.name.replace("coap-", ""), l.run_case, strategy=l.strategy, enumerate=l.enumerate, n=l.n, exhaustive=l.exhaustive, space=l.space) for l in _COAP_TRANSPORT],
     ],
     assumptions=["reference reassembly written from HAP-BLE 7.3.3-7.3.5; how full each fragment is, is not constrained",
